@@ -85,16 +85,16 @@ type c07Heavy struct {
 // c07Bulk describes a large synthetic file; its text is a pure function of
 // these fields (c07BulkText).
 type c07Bulk struct {
-	Lines       int        `json:"lines"` // number of '+' lines
-	Heavy       []c07Heavy `json:"heavy"`
-	Order       string     `json:"order"` // sorted | reversed | stride
-	Stride      int        `json:"stride,omitempty"`
-	Subnets     []string   `json:"subnets,omitempty"` // complete '%' lines
+	Lines   int        `json:"lines"` // number of '+' lines
+	Heavy   []c07Heavy `json:"heavy"`
+	Order   string     `json:"order"` // sorted | reversed | stride
+	Stride  int        `json:"stride,omitempty"`
+	Subnets []string   `json:"subnets,omitempty"` // complete '%' lines
 	// PairEvery > 1: every PairEvery-th '+' record that no heavy key covers starts
 	// a key with two records, so that (in stride order) the later batches of a
 	// batch-mode compilation find a large share of their keys already stored
-	PairEvery int `json:"pair_every,omitempty"`
-	SubnetsLast bool       `json:"subnets_last,omitempty"`
+	PairEvery   int  `json:"pair_every,omitempty"`
+	SubnetsLast bool `json:"subnets_last,omitempty"`
 }
 
 type c07Case struct {
@@ -943,6 +943,29 @@ func c07GenWorldText(t *rapid.T, small bool) (string, uint32) {
 			}
 			out = append(out, amp[ai:]...)
 			lines = out
+		}
+	}
+	// a long but valid line (well below the 64 KiB the line scanner accepts): a TXT
+	// record of several thousand characters, some with a '#' where a 4096-byte
+	// buffer would end
+	if rapid.IntRange(0, 3).Draw(t, "longline") == 0 {
+		n := rapid.SampledFrom([]int{4000, 4070, 4096, 4200, 8192, 20000, 60000}).Draw(t, "longline-len") + rapid.IntRange(0, 40).Draw(t, "longline-jitter")
+		txt := []byte(strings.Repeat("abcdefghijklmnopqrstuvwxyz012345", n/32+1)[:n])
+		if rapid.Bool().Draw(t, "longline-hash") {
+			for _, at := range []int{4095 - 18, 4096 - 18, 4097 - 18, 8191 - 18} { // 18 = len("'long.example.com,")
+				if at > 0 && at < len(txt) {
+					txt[at] = '#'
+				}
+			}
+		}
+		at := rapid.IntRange(0, len(lines)).Draw(t, "longline-at")
+		lines = append(lines[:at:at], append([]string{"'long.example.com," + string(txt) + ",300"}, lines[at:]...)...)
+	}
+	// many location maps (more than there are CPUs): one subnet each
+	if rapid.IntRange(0, 5).Draw(t, "manymaps") == 0 {
+		n := runtime.NumCPU() + rapid.IntRange(2, 24).Draw(t, "manymaps-n")
+		for i := 0; i < n; i++ {
+			lines = append(lines, fmt.Sprintf("%%l%c,10.%d.0.0/16,%c%c", 'a'+i%3, 100+i, 'A'+i/26, 'a'+i%26))
 		}
 	}
 	if rapid.IntRange(0, 3).Draw(t, "decorate") == 0 {
